@@ -23,6 +23,7 @@ from krrood.entity_query_language import symbolic as S
 
 from .eqlworld import P, P2, Q, VP, VQ, index_of
 
+SETS = [frozenset(), frozenset({1}), frozenset({2}), frozenset({1, 2})]  # partially ordered by inclusion: {1} and {2} are incomparable
 OPS = {"==": operator.eq, "!=": operator.ne, "<": operator.lt, "<=": operator.le, ">": operator.gt, ">=": operator.ge}
 PVARS = ("x", "y", "z")
 
@@ -46,7 +47,7 @@ def shape_vars(c, bound=()):
     out = []
 
     def term(t):
-        if t[0] in ("a", "b", "kidv", "val0", "m", "flatv") and t[1] not in out and t[1] not in bound_stack:
+        if t[0] in ("a", "b", "kidv", "val0", "m", "flatv", "s", "sa") and t[1] not in out and t[1] not in bound_stack:
             out.append(t[1])
 
     bound_stack = list(bound)
@@ -55,7 +56,7 @@ def shape_vars(c, bound=()):
         k = c[0]
         if k == "cmp":
             term(c[2]); term(c[3])
-        elif k == "in":
+        elif k in ("in", "truthy"):
             term(c[1])
         elif k in ("has",):
             if c[1] not in out and c[1] not in bound_stack:
@@ -89,9 +90,9 @@ def all_vars(c):
         k = c[0]
         if k == "cmp":
             for t in (c[2], c[3]):
-                if t[0] != "lit":
+                if t[0] not in ("lit", "slit"):
                     add(t[1])
-        elif k == "in":
+        elif k in ("in", "truthy"):
             if c[1][0] != "lit":
                 add(c[1][1])
         elif k == "has":
@@ -113,7 +114,7 @@ def features(c):
     f = set()
 
     def term(t):
-        if t[0] in ("b", "kidv", "val0", "m"):
+        if t[0] in ("b", "kidv", "val0", "m", "s"):
             f.add(t[0])
         if t[0] == "flatv":
             f.add("kids")
@@ -123,7 +124,7 @@ def features(c):
         k = c[0]
         if k == "cmp":
             term(c[2]); term(c[3])
-        elif k == "in":
+        elif k in ("in", "truthy"):
             term(c[1])
         elif k == "has":
             f.add("kids")
@@ -176,6 +177,8 @@ def show(c):
         return "%s%s%s" % (show_t(c[2]), c[1], show_t(c[3]))
     if k == "in":
         return "in(%s,[%s])" % (show_t(c[1]), ",".join("k%d" % i for i in c[2]))
+    if k == "truthy":
+        return show_t(c[1])
     if k == "has":
         return "contains(%s.kids,%s)" % (c[1], c[2])
     if k == "isa":
@@ -192,7 +195,9 @@ def show(c):
 
 
 def show_t(t):
-    return {"a": "%s.a", "b": "%s.b", "kidv": "%s.kid.v", "val0": "%s.vals[0]", "m": "%s.m()", "flatv": "flatten(%s.kids).v"}[t[0]] % t[1] if t[0] != "lit" else "k%d" % t[1]
+    if t[0] == "slit":
+        return "S%d" % t[1]
+    return {"sa": "A(%s)", "s": "%s.s", "a": "%s.a", "b": "%s.b", "kidv": "%s.kid.v", "val0": "%s.vals[0]", "m": "%s.m()", "flatv": "flatten(%s.kids).v"}[t[0]] % t[1] if t[0] != "lit" else "k%d" % t[1]
 
 
 # ---------------------------------------------------------------------------------------------
@@ -229,6 +234,8 @@ class World:
                 if "p2" in f and not value_eq and ctx.flag("%sis2_%d" % (v, i)):
                     cls = P2
                 o = cls(**kw)
+                if "s" in f:
+                    o.s = SETS[ctx.choice("%ss%d" % (v, i), len(SETS))]
                 if "kidv" in f and not value_eq:
                     o.kid = Q(ctx.fresh_int("%skid%d" % (v, i)))
                 if "val0" in f and not value_eq:
@@ -279,7 +286,16 @@ class World:
         k = t[0]
         if k == "lit":
             return self.lits[t[1]]
+        if k == "slit":
+            return SETS[t[1]]
         v = self.var(t[1])
+        if k == "s":
+            return v.s
+        if k == "sa":  # ONE attribute expression node shared by all its uses (a = x.a; and_(a >= k, a))
+            key = ("sa", t[1])
+            if key not in self.evars:
+                self.evars[key] = v.a
+            return self.evars[key]
         if k == "a":
             return v.a
         if k == "b":
@@ -304,6 +320,8 @@ class World:
             return OPS[c[1]](l, r)
         if k == "in":
             return in_(self.term(c[1]), [self.lits[i] for i in c[2]])
+        if k == "truthy":  # the expression on its own as a condition: its truth value
+            return self.term(c[1])
         if k == "has":
             return contains(self.var(c[1]).kids, self.var(c[2]))
         if k == "isa":
@@ -330,7 +348,13 @@ class World:
         k = t[0]
         if k == "lit":
             return self.lits[t[1]]
+        if k == "slit":
+            return SETS[t[1]]
         o = env[t[1]]
+        if k == "s":
+            return o.s
+        if k == "sa":
+            return o.a
         if k == "a":
             return o.a
         if k == "b":
@@ -360,6 +384,8 @@ class World:
         if k == "in":
             t = self.tval(c[1], env)
             return OR([EQ(t, self.lits[i]) for i in c[2]])
+        if k == "truthy":
+            return NOT(EQ(self.tval(c[1], env), 0))
         if k == "has":
             return any(q is env[c[2]] for q in env[c[1]].kids) if not isinstance(env[c[2]], VQ) else OR([EQ(q.v, env[c[2]].v) for q in env[c[1]].kids])
         if k == "isa":
@@ -434,6 +460,11 @@ def atoms(vars_, level):
         out += [("cmp", "<=", ("a", x), ("b", x)), ("in", ("a", x), (0, 1)), ("cmp", "!=", ("a", x), ("lit", 0)), ("pred", x, 0)]
     if level >= 2:
         out += [("cmp", "<", ("kidv", x), ("lit", 0)), ("cmp", ">=", ("val0", x), ("lit", 0)), ("cmp", "==", ("m", x), ("lit", 0)), ("isa", x), ("has", x, "w"), ("cmp", "<", ("lit", 0), ("a", x)), ("cmp", ">", ("flatv", x), ("lit", 0)), ("cmp", "==", ("flatv", x), ("a", x))]
+    if level >= 2:
+        # order comparisons over a partially ordered type: not (a < b) is not (a >= b)
+        out += [("cmp", "<", ("s", x), ("slit", 1)), ("cmp", ">=", ("s", x), ("slit", 2))]
+        if y:
+            out += [("cmp", "<=", ("s", x), ("s", y))]
     if y:
         out += [("cmp", "==", ("a", x), ("a", y)), ("cmp", "<", ("a", x), ("a", y))]
         if level >= 2:
